@@ -594,7 +594,7 @@ func (fr *Frame) makeSlice(x *ssa.MakeSlice) {
 	l := fr.intTo64(x.Len)
 	cp := fr.intTo64(x.Cap)
 	et := x.Type().Underlying().(*types.Slice).Elem()
-	limit := c.eng.makeLimit(et)
+	limit := c.eng.makeLimitFor(et, c.contract)
 	c.oblige(fr, "make-size", fr.ctx.eng.exprText(x.Pos(), "call"), And(BVCmp("bvsle", BVLit(0, 64), l), BVCmp("bvsle", l, cp), BVCmp("bvsle", cp, BVLit(limit, 64))), x.Pos())
 	arr := c.freshRef(fr, et, "arr")
 	// zeroed contents
